@@ -22,6 +22,7 @@ import (
 	"strings"
 	"sync"
 	"sync/atomic"
+	"syscall"
 	"time"
 
 	"github.com/grafana/cog/internal/ast"
@@ -182,18 +183,19 @@ type kindStat struct {
 }
 
 type explorer struct {
-	r        *vx.Run
-	mu       sync.Mutex
-	perKind  map[string]*kindStat
-	perClass map[string]int
-	failKind map[string]int
-	skipped  int
-	revived  int
-	langRuns int
-	dbgRuns  int
-	samples  *vx.Samples
-	deadline time.Time
-	timedOut atomic.Bool
+	r         *vx.Run
+	mu        sync.Mutex
+	perKind   map[string]*kindStat
+	perClass  map[string]int
+	failKind  map[string]int
+	skipped   int
+	revived   int
+	langRuns  int
+	dbgRuns   int
+	samples   *vx.Samples
+	deadline  time.Time     // hard wall-clock cap
+	cpuBudget time.Duration // CPU time (user+system) of this process
+	timedOut  atomic.Bool
 }
 
 func (e *explorer) detail(seed *Seed, seq []*Rule) map[string]any {
@@ -317,7 +319,7 @@ func (e *explorer) level(jobs []*job, keep bool) {
 				if i >= len(jobs) {
 					return
 				}
-				if time.Now().After(e.deadline) {
+				if e.expired() {
 					e.timedOut.Store(true)
 					return
 				}
@@ -395,6 +397,22 @@ func hasBuilderNamed(st *State, name string) bool {
 	return false
 }
 
+// expired: the wall-clock cap or the CPU-time budget has run out.
+func (e *explorer) expired() bool {
+	if time.Now().After(e.deadline) {
+		return true
+	}
+	if e.cpuBudget == 0 {
+		return false
+	}
+	var ru syscall.Rusage
+	if syscall.Getrusage(syscall.RUSAGE_SELF, &ru) != nil {
+		return false
+	}
+	cpu := time.Duration(ru.Utime.Nano() + ru.Stime.Nano())
+	return cpu > e.cpuBudget
+}
+
 func stateKey(st *State) string {
 	// the kind of the last rule is part of the key: it decides the rewriter
 	// phase the next rule lands in
@@ -424,11 +442,18 @@ func main() {
 	cleanup := func() { os.RemoveAll(dir) }
 	defer cleanup()
 
+	// The budget is what a free 16-core machine gives in the stated wall time
+	// (quick ~2 min, thorough ~17 min), counted in CPU time of this process so
+	// that a machine shared with other checks does not silently shrink the
+	// explored space; a hard wall-clock cap bounds the run in any case. When
+	// either runs out the run ends with exit 0 and exhaustive:false.
 	budget := 105 * time.Second
+	wallCap := 6 * time.Minute
 	if r.Thorough() {
 		budget = 17 * time.Minute
+		wallCap = 19 * time.Minute
 	}
-	e := &explorer{r: r, perKind: map[string]*kindStat{}, perClass: map[string]int{}, failKind: map[string]int{}, samples: &vx.Samples{N: 8}, deadline: time.Now().Add(budget)}
+	e := &explorer{r: r, perKind: map[string]*kindStat{}, perClass: map[string]int{}, failKind: map[string]int{}, samples: &vx.Samples{N: 8}, deadline: time.Now().Add(wallCap), cpuBudget: time.Duration(runtime.NumCPU()) * budget}
 
 	debug.SetGCPercent(200)
 	debug.SetMemoryLimit(4 << 30) // soft limit: collect harder rather than grow (other checks share the machine)
@@ -744,7 +769,7 @@ func (e *explorer) languageScenarios(seeds []*Seed) {
 			defer wg.Done()
 			for {
 				i := int(next.Add(1)) - 1
-				if i >= len(js) || time.Now().After(e.deadline) {
+				if i >= len(js) || e.expired() {
 					return
 				}
 				s, rule := js[i].seed, js[i].rule
@@ -814,7 +839,7 @@ func replay(e *explorer, seeds []*Seed) int {
 	}
 	fmt.Println("replaying", wit)
 	fmt.Println("expected kind:", kind)
-	e.deadline = time.Now().Add(time.Hour)
+	e.deadline, e.cpuBudget = time.Now().Add(time.Hour), 0
 	pre := seed.Init
 	again := false
 	var seq []*Rule
